@@ -2,7 +2,8 @@
    description, cuts it into read segments, feeds the segments to the codec model (with the
    SimpleHead tokenizer and the constants of Gen.Consts) and renders every observable. *)
 From Coq Require Import String.
-From AV Require Import Lib.Base Lib.V Gen.Consts H1.Chunked H1.PayloadDec H1.Framing H1.Codec H1.SimpleHead.
+From AV Require Import Lib.Base Lib.V Gen.Consts H1.Chunked H1.PayloadDec H1.Framing H1.Codec H1.SimpleHead
+  H1.Gate H1.GateExec.
 Open Scope N_scope.
 
 (* Byte strings travel as hexadecimal numerals with a leading sentinel byte 01
@@ -27,7 +28,12 @@ Inductive piece := Lit (b : bytes) | LitN (n : N) | Rep (n : N) (b : N).
 Inductive segm := Cuts (l : list N) | Every (k : N).
 (* stream, segmentation, dispatcher-level observables (runner B): 0 = not part of the case,
    1 = compared, 2 = compared without the number of dispatched requests (cases of class F25) *)
-Inductive case := Case (ps : list piece) (sg : segm) (with_b : N).
+Inductive case :=
+| Case (ps : list piece) (sg : segm) (with_b : N)
+(* runner-B case: [polls] is the schedule the harness observed on the real dispatcher, run-length
+   encoded: (n, k) = k consecutive polls of the connection future, each of which took n bytes
+   from the socket.  The gate model (H1/GateExec.v) is run on the schedule derived from it. *)
+| CaseB (ps : list piece) (sg : segm) (polls : list (N * N)).
 
 Fixpoint stream (ps : list piece) : bytes :=
   match ps with
@@ -119,9 +125,45 @@ Definition VOutcome (o : outcome) : V :=
 Definition model_feed (segs : list bytes) : outcome :=
   feed (simple_head H1_MAX_HEADERS) H1_MAX_BUFFER_SIZE segs codec0 [] [].
 
+(* ---- the dispatcher gate on the observed schedule ---------------------------------------------- *)
+(* one poll of the connection future = one read_available call (if it obtained bytes) followed by
+   poll_request; poll_response may call poll_request once more: two XPoll (a further poll_request
+   on a quiescent buffer changes nothing).  The payload of these handlers never pauses the reader
+   (bodies stay below the payload buffer limit): pl_read = true. *)
+Fixpoint poll_block (k n : nat) (s : bytes) : list xop * bytes :=
+  match k with
+  | O => ([], s)
+  | S k' =>
+      let ops := (if (n =? 0)%nat then [] else [XRead (firstn n s)]) ++ [XPoll true; XPoll true] in
+      let '(more, s') := poll_block k' n (skipn n s) in
+      (ops ++ more, s')
+  end.
+Fixpoint xops_of (polls : list (N * N)) (s : bytes) : list xop :=
+  match polls with
+  | [] => []
+  | (n, k) :: r => let '(ops, s') := poll_block (N.to_nat k) (N.to_nat n) s in ops ++ xops_of r s'
+  end.
+
+Definition model_gate (polls : list (N * N)) (s : bytes) : gate :=
+  xexec (simple_head H1_MAX_HEADERS) H1_MAX_BUFFER_SIZE H1_MAX_PIPELINED_MESSAGES (xops_of polls s) gate0.
+
+(* what the application and the peer see: statuses of the dispatcher's own responses, the list of
+   requests handed to the service (not determined after an I/O-class drop), closed after a rejection *)
+Definition VGate (g : gate) : V :=
+  let reqs := VL (map (fun m => VN (num_of_bytes (field (r_method (m_req m)) ++ field (r_target (m_req m))))) (g_msgs g)) in
+  match g_rejected g with
+  | None => VT "b" [VL []; VT "some" [reqs]; VN 2]
+  | Some EIo => VT "b" [VL []; VT "none" []; VN 1]
+  | Some ETooLarge => VT "b" [VL [VN 431]; VT "some" [reqs]; VN 1]
+  | Some _ => VT "b" [VL [VN 400]; VT "some" [reqs]; VN 1]
+  end.
+
 Definition run_C01 (c : case) : V :=
   match c with
   | Case ps sg with_b =>
       let o := model_feed (segments sg (stream ps)) in
       VT "c01" [VOutcome o; if with_b =? 0 then VT "nob" [] else VDisp (with_b =? 1) o]
+  | CaseB ps sg polls =>
+      let s := stream ps in
+      VT "c01" [VOutcome (model_feed (segments sg s)); VGate (model_gate polls s)]
   end.
